@@ -436,7 +436,7 @@ PROPS = {
     },
     "C05": {
         "level": "other",
-        "units": [],
+        "units": ["rtypebitmap"],
         "kani": [
             {"group": "g0", "name": "c05_a_roundtrip", "kind": "complete", "tier": "quick",
              "what": "A: every address: rdlen == 4 == octets written; parse(compose(x)) == x consuming all; canonical form identical"},
@@ -462,8 +462,17 @@ PROPS = {
         "explanation": "bounded/complete contract checking with Kani of the compose/parse/rdlen quadruple on the compiled, "
                        "macro-generated generic code, for the record types CBMC can handle: A and AAAA complete over all values; DS, "
                        "DNSKEY, TLSA, SSHFP, HINFO with small symbolic octet fields; MX and SRV with one fixed name (canonical "
-                       "lower-casing).",
-        "not_covered": "All other types (NS-family, SOA, TXT, NAPTR, CAA, RRSIG, NSEC, NSEC3, NSEC3PARAM, SVCB/HTTPS, OPT and its "
+                       "lower-casing). Verus unit rtypebitmap (rdata/dnssec.rs, real text): the type bitmap shared by NSEC, NSEC3 "
+                       "and CSYNC data -- RtypeBitmap::from_octets accepts exactly the RFC 4034 section 4.1.2 window sequences "
+                       "(each window 1..=32 bitmap octets, wholly inside the data; so every bitmap a builder can produce parses "
+                       "back), and on accepted data contains / read_window / split_rtype and the iterator RtypeBitmapIter::{new, "
+                       "advance, next} are total: the unwrap() cannot fail, no index leaves the data, advance terminates (for "
+                       "bitmaps of every length).",
+        "assumptions": [
+            "AsRefOctets models the bound AsRef<[u8]>: an octets value has one fixed content returned by every as_ref() call",
+            "Rtype (int_enum! macro) is modelled as a 16-bit code with from_int/to_int",
+        ],
+        "not_covered": "All other types (NS-family, SOA, TXT, NAPTR, CAA, RRSIG, the NSEC/NSEC3 records around the bitmap, NSEC3PARAM, SVCB/HTTPS, OPT and its "
                        "options, TSIG, ZONEMD, IPSECKEY, OPENPGPKEY, CDS/CDNSKEY, Unknown/opaque carry), symbolic names inside RDATA "
                        "(CBMC does not finish on symbolic names), LongRecordData limits near 65535 octets.",
     },
